@@ -443,7 +443,7 @@ func genSession(r *Rand, i int) Input {
 				add(sameDomainKind(r, kind), lo())
 			}
 		}
-	case k < 10: // every step another kind, all for one epoch, then the same kinds for an earlier epoch
+	case k < 9: // every step another kind, all for one epoch, then the same kinds for an earlier epoch
 		shape = "session:kinds-of-one-epoch-then-an-earlier-one"
 		m := r.Range(2, 3)
 		p := r.Perm(len(epochKinds))[:m]
@@ -466,7 +466,7 @@ func genSession(r *Rand, i int) Input {
 					q.Contribs[c].Slot = first.Slot
 				}
 			}
-			if r.Chance(1, 3) {
+			if r.Bool() {
 				q.Batch = append([]int(nil), first.Batch...) // the same accounts, another message
 				q.Idxs, q.Contribs = nil, nil
 				genContent(r, &q, chain, first.Epoch)
@@ -498,11 +498,16 @@ func genSession(r *Rand, i int) Input {
 	}
 	// the node does not answer the first requests of the session, then it does (never the other
 	// way round: a service that remembers a domain it did obtain is not what is looked for here)
-	if r.Chance(1, 12) {
+	if r.Chance(1, 8) {
 		shape += "+node-down-at-first"
-		for j, m := 0, r.Range(1, len(steps)-1); j < m; j++ {
+		m := r.Range(1, len(steps)-1)
+		for j := 0; j < m; j++ {
 			steps[j].DomFail = true
 		}
+		// one of the requests that went unanswered is made again at the end
+		retry := steps[r.Intn(m)]
+		retry.DomFail = false
+		steps = append(steps, retry)
 	}
 	in.Req, in.Then = steps[0], steps[1:]
 	in.Tags = []string{forkStyle, poolStyle, shape}
